@@ -28,6 +28,78 @@ type errflowCfg struct {
 	handler func(c *ssa.CallCommon) bool
 	// classified edges: a branch on `err.(T)` / `err == sentinel` handles the error on its matching edge
 	allowClassify bool
+	// successOnly: only a *success* return (nil / possibly-nil error) counts as a drop; returning a
+	// different, provably non-nil error is accepted ("reports an error rather than success")
+	successOnly bool
+	// carries: does this returned value derive from a tracked source? (used for correlated results)
+	carries func(v ssa.Value) bool
+}
+
+var neverReturnsMemo = map[*ssa.Function]int{}
+
+// neverReturns: no Return instruction is reachable in fn (it always panics / exits): a call to it ends the path.
+func neverReturns(fn *ssa.Function) bool {
+	if fn == nil || fn.Blocks == nil {
+		return false
+	}
+	if v, ok := neverReturnsMemo[fn]; ok {
+		return v == 1
+	}
+	res := 1
+	reachable := blocksReachable(fn, nil)
+	for _, b := range fn.Blocks {
+		if !reachable[b] || len(b.Instrs) == 0 {
+			continue
+		}
+		if _, ok := b.Instrs[len(b.Instrs)-1].(*ssa.Return); ok && b != fn.Recover {
+			res = 2
+		}
+	}
+	neverReturnsMemo[fn] = res
+	return res == 1
+}
+
+// correlatedBool: the callee returns (..., ok bool, err error) and every return with a possibly non-nil
+// error has ok == true ("not applicable" implies "no error"); returns the index of that bool result.
+func correlatedBool(c *ssa.Call, carriesSource func(v ssa.Value) bool) (int, bool) {
+	f := c.Common().StaticCallee()
+	if f == nil || f.Blocks == nil {
+		return 0, false
+	}
+	eidx := errorResultIndex(f.Signature)
+	if eidx < 1 {
+		return 0, false
+	}
+	res := f.Signature.Results()
+	for bi := 0; bi < res.Len(); bi++ {
+		b, ok := res.At(bi).Type().Underlying().(*types.Basic)
+		if !ok || b.Kind() != types.Bool {
+			continue
+		}
+		holds := true
+		n := 0
+		allInstrs(f, func(in ssa.Instruction) {
+			ret, ok := in.(*ssa.Return)
+			if !ok || eidx >= len(ret.Results) {
+				return
+			}
+			n++
+			ev := resolveSpill(ret.Results[eidx])
+			if isNilConst(ev) {
+				return
+			}
+			if carriesSource != nil && !carriesSource(ev) {
+				return // an error of another kind (fresh syntax error ...): not the one being tracked
+			}
+			if v, ok := isConstBool(resolveSpill(ret.Results[bi])); !ok || !v {
+				holds = false
+			}
+		})
+		if holds && n > 0 {
+			return bi, true
+		}
+	}
+	return 0, false
 }
 
 func taintKey(m map[ssa.Value]bool) string {
@@ -66,16 +138,22 @@ func errResultOf(c *ssa.Call, idx int) ssa.Value {
 func checkErrFlow(fn *ssa.Function, def ssa.Instruction, e ssa.Value, cfg errflowCfg) []errDrop {
 	errIdx := errorResultIndex(fn.Signature)
 	type state struct {
-		b     *ssa.BasicBlock
-		i     int
-		taint map[ssa.Value]bool
-		from  *ssa.BasicBlock
-		prev  int
+		b      *ssa.BasicBlock
+		i      int
+		taint  map[ssa.Value]bool
+		from   *ssa.BasicBlock
+		prev   int
+		assume map[ssa.Value]bool // nil-ness / truthiness of values tested along the path
+		slots  map[ssa.Value]ssa.Value // local slot -> value last stored on this path
 	}
 	var drops []errDrop
 	seen := map[string]bool{}
+	corrIdx, hasCorr := -1, false
+	if dc, ok := def.(*ssa.Call); ok {
+		corrIdx, hasCorr = correlatedBool(dc, cfg.carries)
+	}
 	start := posOfInstr(def)
-	queue := []state{{start.b, start.i + 1, map[ssa.Value]bool{e: true}, nil, -1}}
+	queue := []state{{start.b, start.i + 1, map[ssa.Value]bool{e: true}, nil, -1, map[ssa.Value]bool{}, map[ssa.Value]ssa.Value{}}}
 	pathOf := func(qi int) []*ssa.BasicBlock {
 		var p []*ssa.BasicBlock
 		for k := qi; k >= 0; k = queue[k].prev {
@@ -105,6 +183,18 @@ func checkErrFlow(fn *ssa.Function, def ssa.Instruction, e ssa.Value, cfg errflo
 			t[k] = true
 		}
 		b := st.b
+		slots := map[ssa.Value]ssa.Value{}
+		for k, v := range st.slots {
+			slots[k] = v
+		}
+		canon := func(v ssa.Value) ssa.Value {
+			if u, ok := v.(*ssa.UnOp); ok && u.Op == token.MUL {
+				if sv, ok := slots[u.X]; ok {
+					return sv
+				}
+			}
+			return v
+		}
 		// phis at block entry (only when entering from a predecessor)
 		if st.i == 0 && st.from != nil {
 			pi := -1
@@ -132,6 +222,9 @@ func checkErrFlow(fn *ssa.Function, def ssa.Instruction, e ssa.Value, cfg errflo
 			case *ssa.Phi:
 				// handled above
 			case *ssa.Store:
+				if a, ok := x.Addr.(*ssa.Alloc); ok {
+					slots[a] = canon(x.Val)
+				}
 				if isTainted(t, x.Val) {
 					root := addrRoot(x.Addr)
 					if a, ok := root.(*ssa.Alloc); ok {
@@ -166,6 +259,9 @@ func checkErrFlow(fn *ssa.Function, def ssa.Instruction, e ssa.Value, cfg errflo
 						ok = true
 					}
 				}
+				if !ok && cfg.successOnly && !isSuccessReturnC(x, st.assume, canon) {
+					ok = true // returns some other, provably non-nil error: not reported as success
+				}
 				if !ok {
 					how := "returns without the error"
 					if errIdx >= 0 && errIdx < len(x.Results) {
@@ -187,6 +283,10 @@ func checkErrFlow(fn *ssa.Function, def ssa.Instruction, e ssa.Value, cfg errflo
 				}
 				if c.IsInvoke() && isTainted(t, c.Value) {
 					anyT = true // err.Error()
+				}
+				if f := c.StaticCallee(); f != nil && neverReturns(f) {
+					ended = true // the call never comes back (throws): not a silent drop
+					break
 				}
 				if anyT {
 					if cfg.handler != nil && cfg.handler(c) {
@@ -229,6 +329,18 @@ func checkErrFlow(fn *ssa.Function, def ssa.Instruction, e ssa.Value, cfg errflo
 			}
 		}
 		for si, s := range b.Succs {
+			if haveCT && hasCorr && (ct.TrueWhen == "true" || ct.TrueWhen == "false") {
+				if ex, ok := ct.V.(*ssa.Extract); ok && ex.Index == corrIdx && ssa.Instruction(asCall(ex.Tuple)) == def {
+					// on the edge where the correlated flag is false the error is nil
+					falseIdx := 1
+					if ct.TrueWhen == "false" {
+						falseIdx = 0
+					}
+					if si == falseIdx {
+						continue
+					}
+				}
+			}
 			if haveCT && isTainted(t, ct.V) && (ct.TrueWhen == "nil" || ct.TrueWhen == "nonnil") {
 				// prune the edge on which the error is nil
 				nilIdx := 0
@@ -253,12 +365,29 @@ func checkErrFlow(fn *ssa.Function, def ssa.Instruction, e ssa.Value, cfg errflo
 					continue // err != Sentinel: the false edge is the sentinel case
 				}
 			}
-			k := itoa(s.Index) + "<" + itoa(b.Index) + "|" + taintKey(t)
+			am := st.assume
+			if haveCT {
+				ct.V = canon(ct.V)
+				pos := ct.TrueWhen == "true" || ct.TrueWhen == "nonnil"
+				truth := pos == (si == 0)
+				if prev, ok := am[ct.V]; ok {
+					if prev != truth {
+						continue
+					}
+				} else {
+					am = map[ssa.Value]bool{}
+					for k2, v2 := range st.assume {
+						am[k2] = v2
+					}
+					am[ct.V] = truth
+				}
+			}
+			k := itoa(s.Index) + "<" + itoa(b.Index) + "|" + taintKey(t) + "|" + taintKey(am) + assumeBits(am)
 			if seen[k] {
 				continue
 			}
 			seen[k] = true
-			queue = append(queue, state{s, 0, t, b, qi})
+			queue = append(queue, state{s, 0, t, b, qi, am, slots})
 		}
 	}
 	return drops
@@ -372,4 +501,37 @@ func addrRoot(v ssa.Value) ssa.Value {
 		}
 	}
 	return v
+}
+
+func asCall(v ssa.Value) *ssa.Call {
+	c, _ := v.(*ssa.Call)
+	return c
+}
+
+func assumeBits(m map[ssa.Value]bool) string {
+	var ks []string
+	for v, t := range m {
+		if t {
+			ks = append(ks, v.Name())
+		}
+	}
+	sort.Strings(ks)
+	return "+" + strings.Join(ks, ",")
+}
+
+// isSuccessReturnC: isSuccessReturn with the path's knowledge of local slots.
+func isSuccessReturnC(ret *ssa.Return, assume map[ssa.Value]bool, canon func(ssa.Value) ssa.Value) bool {
+	fn := ret.Parent()
+	idx := errorResultIndex(fn.Signature)
+	if idx < 0 || idx >= len(ret.Results) {
+		return true
+	}
+	v := canon(ret.Results[idx])
+	if isNilConst(v) {
+		return true
+	}
+	if t, ok := assume[v]; ok {
+		return !t
+	}
+	return isSuccessReturn(ret, assume)
 }
